@@ -714,6 +714,12 @@ def replay(ctx, path, spec):
     rec = json.load(open(path))
     ev = rec["event"]
     pkg = spec.get("replay_pkg", "h_core")
+    if rec.get("stage", "").endswith("-alloc"):
+        pkg = "h_schema_alloc"        # events of the alloc-only configuration of postcard-schema
+    elif rec.get("stage", "") == "io-eio04":
+        pkg = None
+    if pkg is None:
+        raise ToolError("events of the embedded-io 0.4 build are replayed by rerunning the thorough check (separate feature set)")
     cargo_build(ctx, pkg)
     d = os.path.join(WORK, "replay")
     os.makedirs(d, exist_ok=True)
@@ -750,4 +756,4 @@ def setup():
     return 0 if bad == 0 else 2
 
 
-HARNESS_PKGS = ["h_core", "h_schema", "h_maxsize", "h_dyn"]
+HARNESS_PKGS = ["h_core", "h_schema", "h_maxsize", "h_dyn", "h_schema_alloc"]
